@@ -75,18 +75,19 @@ Proof. vm_compute. repeat split. Qed.
    Auth/Acl.v (C17), instantiated with the proved validator. *)
 Theorem C30_suback :
   forall (perm : Chain.client -> bytes -> bool -> bool) (matches : bytes -> bytes -> bool)
-         (ob : bool) (ver : N) (cl : Chain.client) (fs : list (bytes * N)) (i : nat) (f : bytes) (q : N),
+         (is_shared : bytes -> bool) (eff : bytes -> bytes)
+         (ob : bool) (ver : N) (cl : Chain.client) (fs : list (bytes * (N * bool))) (i : nat) (f : bytes) (q : N) (nl : bool),
   let valid := fun s => is_valid_filter s false in
-  nth_error fs i = Some (f, q) -> valid_filter_spec f = false ->
-  nth_error (fst (Acl.sub_codes perm valid ver ob cl fs)) i = Some (if (ver <? 5)%N then 128%N else 143%N) /\
-  (forall q', ~ In (f, q') (snd (Acl.sub_codes perm valid ver ob cl fs))) /\
-  (forall st c q', AclProofs.reachable perm matches valid ob st -> ~ In (c, (f, q')) (Acl.a_subs st)).
+  nth_error fs i = Some (f, (q, nl)) -> valid_filter_spec f = false ->
+  nth_error (fst (Acl.sub_codes perm valid is_shared ver ob cl fs)) i = Some (if (ver <? 5)%N then 128%N else 143%N) /\
+  (forall o, ~ In (f, o) (snd (Acl.sub_codes perm valid is_shared ver ob cl fs))) /\
+  (forall st c o, AclProofs.reachable perm matches valid is_shared eff ob st -> ~ In (c, (f, o)) (Acl.a_subs st)).
 Proof.
-  intros perm matches ob ver cl fs i f q valid Hn Hs.
+  intros perm matches is_shared eff ob ver cl fs i f q nl valid Hn Hs.
   assert (Hv : valid f = false) by (unfold valid; rewrite C30_filter; exact Hs).
-  destruct (AclProofs.subinvalid_code perm valid ob ver cl fs i f q Hn Hv) as [H1 H2].
+  destruct (AclProofs.subinvalid_code perm valid is_shared ob ver cl fs i f q nl Hn Hv) as [H1 H2].
   split; [exact H1|]. split; [exact H2|].
-  intros st c q' Hr. exact (AclProofs.subinvalid_creates_nothing perm matches valid ob st c f q' Hr Hv).
+  intros st c o Hr. exact (AclProofs.subinvalid_creates_nothing perm matches valid is_shared eff ob st c f o Hr Hv).
 Qed.
 
 Print Assumptions C30_filter.
